@@ -1,0 +1,145 @@
+//go:build verif
+
+package main
+
+import (
+	"fmt"
+	"runtime/debug"
+	"sync"
+
+	"github.com/moorara/algo/grammar"
+
+	"github.com/gardenbed/emerge/internal/ebnf/parser/spec"
+	"github.com/gardenbed/emerge/internal/regex/parser/nfa"
+)
+
+func init() {
+	register("sequence", opSequence)
+	register("concurrent", opConcurrent)
+	register("hash_strings", opHashStrings)
+}
+
+// opHashStrings calls hashStrings on the given list of strings of symbols ([["t"|"n", name], ...] each) and returns the
+// hash together with the symbols in the order the call left them in.
+func opHashStrings(req request) response {
+	var ss spec.Strings
+	if l, ok := req["strings"].([]any); ok {
+		for _, x := range l {
+			var str grammar.String[grammar.Symbol]
+			if syms, ok := x.([]any); ok {
+				for _, y := range syms {
+					if pair, ok := y.([]any); ok && len(pair) == 2 {
+						kind, _ := pair[0].(string)
+						name, _ := pair[1].(string)
+						if kind == "t" {
+							str = append(str, grammar.Terminal(name))
+						} else {
+							str = append(str, grammar.NonTerminal(name))
+						}
+					}
+				}
+			}
+			ss = append(ss, str)
+		}
+	}
+	sum := spec.VerifHashStrings(ss)
+	written := []string{}
+	for _, str := range ss {
+		for _, sym := range str {
+			written = append(written, sym.String())
+		}
+	}
+	return response{"outcome": "ok", "hash": fmt.Sprintf("%d", sum), "written": written}
+}
+
+func texts(req request) []string {
+	out := []string{}
+	if l, ok := req["texts"].([]any); ok {
+		for _, x := range l {
+			if s, ok := x.(string); ok {
+				out = append(out, s)
+			}
+		}
+	}
+	return out
+}
+
+// patternRun renders what nfa.Parse returns for a pattern followed by the construction of the DFA.
+func patternRun(p string) (out string) {
+	defer func() {
+		if r := recover(); r != nil {
+			out = "panic"
+		}
+	}()
+	n, err := nfa.Parse(p)
+	if err != nil {
+		return "error: " + err.Error()
+	}
+	d := n.ToDFA().Minimize().EliminateDeadStates().ReindexStates()
+	return d.String()
+}
+
+// opSequence processes the given specifications and patterns one after the other in this process
+// and returns the observable result of each.
+func opSequence(req request) response {
+	res := []string{}
+	for _, t := range texts(req) {
+		res = append(res, rawRun(t))
+	}
+	pres := []string{}
+	if l, ok := req["patterns"].([]any); ok {
+		for _, x := range l {
+			if s, ok := x.(string); ok {
+				pres = append(pres, patternRun(s))
+			}
+		}
+	}
+	return response{"outcome": "ok", "results": res, "pattern_results": pres}
+}
+
+// opConcurrent first processes every specification alone, then all of them at the same time on separate goroutines
+// (several rounds), and returns the indices whose concurrent result differs from the result obtained alone.
+func opConcurrent(req request) response {
+	ts := texts(req)
+	rounds := num(req, "rounds", 4)
+	copies := num(req, "copies", 2)
+	alone := make([]string, len(ts))
+	for i, t := range ts {
+		alone[i] = rawRun(t)
+	}
+	var mu sync.Mutex
+	differing := map[int]string{}
+	for r := 0; r < rounds; r++ {
+		var wg sync.WaitGroup
+		for c := 0; c < copies; c++ {
+			for i, t := range ts {
+				wg.Add(1)
+				go func(i int, t string) {
+					defer wg.Done()
+					defer func() {
+						if rec := recover(); rec != nil {
+							mu.Lock()
+							differing[i] = fmt.Sprintf("panic: %v\n%s", rec, debug.Stack())
+							mu.Unlock()
+						}
+					}()
+					if got := rawRun(t); got != alone[i] {
+						mu.Lock()
+						differing[i] = got
+						mu.Unlock()
+					}
+				}(i, t)
+			}
+		}
+		wg.Wait()
+	}
+	idx := []int{}
+	got := []string{}
+	for i := range ts {
+		if g, ok := differing[i]; ok {
+			idx = append(idx, i)
+			got = append(got, g)
+		}
+	}
+	return response{"outcome": "ok", "alone": alone, "differing": idx, "concurrent": got}
+}
